@@ -1189,6 +1189,33 @@ private:
                                  << "Caller after forgetting lhs variables="
                                  << caller_dom << "\n";);
 
+    // An input formal parameter can have the same name as a variable
+    // of the callsite without being passed as itself (e.g., the
+    // recursive call z:=foo(y,x) inside foo(x,y)). The constraints of
+    // the callee over that formal are not about the caller's
+    // variable so we first rename the formal to a fresh variable.
+    std::vector<variable_t> in_formals(fdecl.get_inputs().begin(),
+                                       fdecl.get_inputs().end());
+    std::vector<variable_t> fresh_in_formals;
+    {
+      std::set<variable_t> cs_vars(cs.get_args().begin(), cs.get_args().end());
+      cs_vars.insert(cs.get_lhs().begin(), cs.get_lhs().end());
+      for (unsigned i = 0, e = in_formals.size(); i < e; ++i) {
+        if (!(in_formals[i] == cs.get_args()[i]) &&
+            cs_vars.count(in_formals[i]) > 0) {
+          using varname_t = typename variable_t::varname_t;
+          auto &vfac = const_cast<varname_t *>(&(in_formals[i].name()))
+                           ->get_var_factory();
+          variable_t fresh(vfac.get(), in_formals[i].get_type());
+          inter_transformer_helpers<AbsDom>::unify(sum_out_dom, fresh,
+                                                   in_formals[i]);
+          sum_out_dom.forget({in_formals[i]});
+          in_formals[i] = fresh;
+          fresh_in_formals.push_back(fresh);
+        }
+      }
+    }
+
     // Wire-up outputs: propagate from callee's outputs to caller's
     // lhs of the callsite
     //
@@ -1258,8 +1285,8 @@ private:
     // formal parameter so they shouldn't be forgotten.
     std::vector<variable_t> caller_and_callee_vars;
     caller_and_callee_vars.reserve(fdecl.get_inputs().size());
-    for (unsigned i = 0, e = fdecl.get_inputs().size(); i < e; ++i) {
-      const variable_t &in_formal = fdecl.get_inputs()[i];
+    for (unsigned i = 0, e = in_formals.size(); i < e; ++i) {
+      const variable_t &in_formal = in_formals[i];
       if (cs_in_args.count(in_formal) > 0) {
         caller_and_callee_vars.push_back(in_formal);
       } else {
@@ -1288,7 +1315,15 @@ private:
 
     caller_and_callee_vars.insert(caller_and_callee_vars.end(),
                                   cs.get_lhs().begin(), cs.get_lhs().end());
+    if (!fresh_in_formals.empty()) {
+      // an actual parameter with the name of a renamed formal has
+      // been unified with another formal: it must not be forgotten.
+      caller_and_callee_vars.insert(caller_and_callee_vars.end(),
+                                    cs.get_args().begin(), cs.get_args().end());
+    }
     auto local_vars = set_difference(sum_out_variables, caller_and_callee_vars);
+    local_vars.insert(local_vars.end(), fresh_in_formals.begin(),
+                      fresh_in_formals.end());
     // Forget callee's local variables
     sum_out_dom.forget(local_vars);
 
